@@ -195,6 +195,31 @@ fn exec(sh: &Shared, thread: usize, op: &Op) {
             if *mode == 3 {
                 sh.reg.exempt[id as usize].store(true, Ordering::Relaxed);
             }
+            if *mode == 4 {
+                // the push is issued by a destructor that runs while the thread unwinds from an unrelated panic
+                struct PushOnDrop<'a> {
+                    sh: &'a Shared,
+                    value: Option<Tracked>,
+                    idx: &'a std::cell::Cell<Option<u32>>,
+                }
+                impl Drop for PushOnDrop<'_> {
+                    fn drop(&mut self) {
+                        let v = self.value.take().unwrap();
+                        let idx = self.sh.vec.push(v, |v, cols| fill(v.id, cols));
+                        self.idx.set(Some(idx));
+                    }
+                }
+                let cell = std::cell::Cell::new(None);
+                let _ = catch_unwind(AssertUnwindSafe(|| {
+                    let _guard = PushOnDrop { sh, value: Some(value), idx: &cell };
+                    panic!("unwinding on purpose while a destructor pushes");
+                }));
+                let res = Res::Push { id, idx: cell.get() };
+                let ret = stamp();
+                sh.log.lock().unwrap().push(Ev { thread, call, ret, res });
+                sched::yield_code(P_OP_END);
+                return;
+            }
             let r = catch_unwind(AssertUnwindSafe(|| {
                 sh.vec.push(value, |v, cols| {
                     match *mode {
@@ -517,6 +542,7 @@ fn gen_script(rng: &mut Rng, next_id: &mut u32, nops: usize, hot: u32, writer_bi
                     0 => 1,
                     1 => 2,
                     2 => 3,
+                    3 => 4,
                     _ => 0,
                 };
                 Op::Push { id, mode, arg: rng.below(hot as usize + 1) as u32 }
